@@ -22,6 +22,9 @@ pub(crate) fn consumed() -> (usize, usize) {
 }
 
 fn pop(width: usize) -> Vec<u8> {
+    if let Some(bytes) = draw(width) {
+        return bytes;
+    }
     let index = CURSOR.with(|c| {
         let mut c = c.borrow_mut();
         *c += 1;
@@ -80,3 +83,61 @@ macro_rules! cover {
     ($($tt:tt)*) => {};
 }
 pub(crate) use cover;
+
+// ---------------------------------------------------------------------------------------------
+// Witness search mode. Used only when Kani's concrete playback cannot produce values (it turns
+// formula slicing off and then runs out of memory on the larger harnesses): the solver has
+// already decided that the obligation fails; this looks for a *replayable* input natively by
+// drawing every `any()` from a boundary-biased generator, and records what it drew.
+// ---------------------------------------------------------------------------------------------
+thread_local! {
+    static SEARCH: RefCell<Option<u64>> = RefCell::new(None);
+    static DRAWN: RefCell<Vec<Vec<u8>>> = RefCell::new(Vec::new());
+}
+
+pub(crate) fn search_begin(state: u64) {
+    SEARCH.with(|s| *s.borrow_mut() = Some(state | 1));
+    DRAWN.with(|d| d.borrow_mut().clear());
+}
+
+pub(crate) fn search_drawn() -> Vec<Vec<u8>> {
+    DRAWN.with(|d| d.borrow().clone())
+}
+
+fn next_random() -> Option<u64> {
+    SEARCH.with(|s| {
+        let mut s = s.borrow_mut();
+        match s.as_mut() {
+            None => None,
+            Some(state) => {
+                // xorshift64*
+                *state ^= *state >> 12;
+                *state ^= *state << 25;
+                *state ^= *state >> 27;
+                Some(state.wrapping_mul(0x2545F4914F6CDD1D))
+            }
+        }
+    })
+}
+
+/// A boundary-biased value of `width` bytes (little endian, two's complement).
+fn draw(width: usize) -> Option<Vec<u8>> {
+    let r = next_random()?;
+    let bits = (width * 8) as u32;
+    let min: i128 = -(1i128 << (bits - 1));
+    let max: i128 = (1i128 << (bits - 1)) - 1;
+    let pick = (r >> 8) as usize;
+    let value: i128 = match r % 8 {
+        0 => [min, min + 1, max, max - 1][pick % 4],
+        1 => [-(1i128 << (bits / 2)), 1i128 << (bits / 2), -(1i128 << (bits - 2)), 1i128 << (bits - 2),
+              (1i128 << (bits - 2)) + 1, -(1i128 << (bits - 2)) - 1][pick % 6].clamp(min, max),
+        2 | 3 | 4 => (pick % 9) as i128 - 4,
+        5 => (pick % 200) as i128 - 100,
+        6 => ((pick as i128) % 140_000) - 70_000,
+        _ => ((next_random()? as i128) << 1 ^ (r as i128)).rem_euclid(1i128 << bits) + min,
+    }
+    .clamp(min, max);
+    let bytes = (value as u128).to_le_bytes()[..width].to_vec();
+    DRAWN.with(|d| d.borrow_mut().push(bytes.clone()));
+    Some(bytes)
+}
